@@ -116,7 +116,7 @@ func (d *denoter) val(v reflect.Value) *hspec.Value {
 		d.object(n, v)
 		return n
 	case reflect.Slice, reflect.Array:
-		if t.Elem().Kind() == reflect.Uint8 && t.Kind() == reflect.Slice && t.Name() == "" {
+		if t == reflect.TypeOf([]byte(nil)) {
 			// the unnamed []byte is binary; a NAMED byte-slice type goes the way of every
 			// other slice (a list under its registered name), as the documented kind table says
 			return hspec.Binary(append([]byte{}, v.Bytes()...))
